@@ -116,6 +116,8 @@ def items(tier, seed):
     scripts_ = ["cccccc", "cTccUc"]
     for algo in ("train_dqn", "train_nature_dqn", "train_ddqn", "train_ddqn_per"):
         for (T, w), sc in itertools.product(windows, scripts_):
+            if quick and sc != "cccccc" and (T, w) not in ((6, 0), (60, 3)):
+                continue  # episode ends inside the window: two windows suffice in the quick tier
             out.append(dict(name=f"loop-{algo}-T{T}-w{w}-ls0-{sc}", kind="loop", algo=algo, T=T, w=w, ls=0, script=sc, seed=seed))
         if algo != "train_dqn":
             for T in ([6, 1000] if quick else [6, 20, 60, 1000]):
